@@ -10,7 +10,7 @@ if [ ! -d $wt ]; then git -C /repo worktree add -q --detach $wt HEAD || exit 2; 
 ( cd $wt && git apply "$patch" ) || { echo "patch does not apply"; exit 2; }
 export VERIF_REPO=$wt CARGO_TARGET_DIR=/tmp/seed_target IASTMC_BIN=/tmp/seed_target/debug/iastmc
 cd /verif
-cp -r evidence /tmp/seed_evidence_backup 2>/dev/null
+export VERIF_EVIDENCE_DIR=/tmp/seed_evidence VERIF_REPLAY_DIR=/tmp/seed_replays
 for p in "$@"; do
   out=$(./check $p --tier quick 2>&1)
   rc=$?
@@ -18,6 +18,4 @@ for p in "$@"; do
   echo "$out" | grep -E "^  rule=" | sort | uniq -c | sort -rn | head -4
   echo "$out" | grep -E "^MACHINERY" | head -3
 done
-# evidence and replays written by a run on a seeded tree are not evidence about /repo
-rm -rf evidence && mv /tmp/seed_evidence_backup evidence
 ( cd $wt && git reset -q --hard )
